@@ -49,6 +49,9 @@ def volume_record(rng, b, fam, orient, dyadic=False):
                 break
     traj = Trajectory(species=[Species('Li')] * A, coords=k / N + rng.integers(-1, 2, size=k.shape), lattice=Lattice(M),
                       time_step=1e-15)
+    gen.perturb(traj, rng)
+    if rng.random() < 0.3:
+        traj.to_volume(resolution=res)
     vol = trajectory_to_volume(traj, resolution=res) if rng.random() < 0.5 else traj.to_volume(resolution=res)
     data = np.asarray(vol.data)
     nz = np.argwhere(data > 0)
